@@ -197,15 +197,26 @@ func verifC16_Takeover() {
 // verifC16_AdminDelete: deleting a session through the admin path disconnects that client.
 func verifC16_AdminDelete() {
 	b := vC16Broker(0)
-	c1 := vConnect("c", verifBool("cleanSession"), "t/1")
+	// client ids of several shapes (the id is recovered from the storage key of the session)
+	id := []string{"c", "sensor-7", "42", "mqtt/line-3"}[verifChoose("clientID", 4)]
+	c1 := vConnect(id, verifBool("cleanSession"), "t/1")
 	go b.handleConn(c1)
 	verifQuiesce()
-	cl := b.clients["c"]
+	cl := b.clients[id]
 	verifAssert(cl != nil, "connected")
-	b.deleteSession("c")
+	if verifBool("throughTheStorageWatch") {
+		// the admin endpoint deletes the session from the store; every member learns it from
+		// its delete watch
+		ch := make(chan map[string]*string, 1)
+		go b.watchDelete(ch, func() {})
+		ch <- map[string]*string{sessionStoreKey(id): nil}
+		verifCover("through-the-delete-watch")
+	} else {
+		b.deleteSession(id)
+	}
 	verifQuiesce()
 	verifAssert(cl.disconnected(), "admin-delete-disconnects-the-client")
-	_, still := b.clients["c"]
+	_, still := b.clients[id]
 	verifAssert(!still, "admin-delete-deregisters-the-client")
 }
 
